@@ -10,6 +10,7 @@ import FeatModel.Lemmas.C18_permT
 import FeatModel.Lemmas.C18_spd
 import FeatModel.Lemmas.C18_stride
 import FeatModel.Lemmas.C18_global
+import FeatModel.Lemmas.C18_tp
 import Mathlib.Tactic.IntervalCases
 /-! # C18 — property theorems (statements only; proofs live in Lemmas/C18_*.lean)
 
@@ -116,6 +117,31 @@ theorem C18.truncation_left_inverse (d : Dump) (tl : List (List Nat × List (Lis
         = FeatModel.GT.get (massC cell.cmap.length cell.cpts) l j) :
     ∀ r, r < d.nc → (matVec d.nc d.nf td vf).getD r 0 = xc r :=
   C18L.truncation_exact d tl td vf xc E htl htd hfmap hsame hint
+
+/-- **`T · P = 1` at matrix level**: the mass-weighted truncation matrix of `assemble_truncation_direct` is a left
+inverse of every matrix whose rows are the local embedding rows (`consB`: all cells sharing a fine dof contribute the
+same row — true for the assembled prolongation of a nested space), provided the refined rule integrates the coarse
+mass matrix like the unrefined rule (`intB`).  Cells may have arbitrary, non-congruent sizes; the element family enters
+only through the decidable certificates `consB`, `intB`, `mapsB`, which the driver evaluates on the real ingredients
+of every `fe` case (stream `certificates`) -/
+theorem C18.truncation_prolongation_identity (d : Dump) (tl : List (List Nat × List (List Nat × Mat))) (td pd : Mat)
+    (htl : localTruncs d = .ok tl)
+    (htd : scaleRows d.nf (truncRaw d tl) (truncWeights d tl) = some td)
+    (hcons : consB d pd = true) (hint : intB d = true) (hmaps : mapsB d = true) :
+    ∀ r s, r < d.nc → s < d.nc →
+      sumTo d.nf (fun k => FeatModel.GT.get td r k * FeatModel.GT.get pd k s) = if r = s then 1 else 0 :=
+  C18L.trunc_prol_identity d tl td pd htl htd hcons hint hmaps
+
+/-- `C18.prolongation_exact` with its nestedness and range hypotheses replaced by the decidable certificates
+`nestedB`, `mapsB` (local embedding := the computed local prolongation `Eof`) -/
+theorem C18.prolongation_exact_certified (d : Dump) (locs : List (List Nat × List Nat × Mat)) (pd : Mat)
+    (xc : List Rat) (vf : Nat → Rat) (hlocs : localProls d = .ok locs) (hpd : prolDirect d locs = some pd)
+    (hnest : nestedB d = true) (hmaps : mapsB d = true)
+    (hsame : ∀ cell ∈ d.cells, ∀ ch ∈ cell.children, ∀ i, i < ch.fmap.length →
+      vf (ch.fmap.getD i 0)
+        = ∑ j ∈ range cell.cmap.length, FeatModel.GT.get (Eof cell ch) i j * xc.getD (cell.cmap.getD j 0) 0) :
+    ∀ r, r < d.nf → (matVec d.nf d.nc pd xc).getD r 0 = vf r :=
+  C18L.prolongation_exact_cert d locs pd xc vf hlocs hpd hnest hmaps hsame
 
 /-- the dense restriction printed for the `fe` cases is the exact transpose of the prolongation -/
 theorem C18.restriction_dense_is_transpose {nf nc : Nat} (pd : Mat) {i j : Nat} (hi : i < nc) (hj : j < nf) :
@@ -257,6 +283,42 @@ theorem C18.perm_invariance_truncation (m0 : TwoLevel) (pc pf pfinv : List Nat) 
     {r s : Nat} (hr : r < m0.nc) (hs : s < m0.nf) (hr' : σc r < m0.nc) (hs' : σf s < m0.nf) :
     FeatModel.GT.get tdP (σc r) (σf s) = FeatModel.GT.get td0 r s :=
   C18L.perm_invariance_trunc m0 pc pf pfinv hc hf hok h0 hP hd0 hdP hr hs hr' hs'
+
+/-- **perm_invariance, restriction**: `R' = Π_c R Π_fᵀ`, i.e. `R'(σc s, σf r) = R(s, r)` for the transposes of the
+assembled prolongations (the array-level `rest = prol.transpose()` is `C18.restriction_is_transpose`) -/
+theorem C18.perm_invariance_restriction (m0 : TwoLevel) (pc pf pfinv : List Nat) {σc σf : Nat → Nat}
+    (hc : Function.Injective σc) (hf : Function.Injective σf) (hok : C18L.PermOK m0 pc pf pfinv)
+    {locs0 locsP : List (List Nat × List Nat × Mat)} {pd0 pdP : Mat}
+    (h0 : localProls m0.toDump = .ok locs0)
+    (hP : localProls (C18L.permutedPair m0 pc pf pfinv σc σf).toDump = .ok locsP)
+    (hd0 : prolDirect m0.toDump locs0 = some pd0)
+    (hdP : prolDirect (C18L.permutedPair m0 pc pf pfinv σc σf).toDump locsP = some pdP)
+    {r s : Nat} (hr : r < m0.nf) (hs : s < m0.nc) (hr' : σf r < m0.nf) (hs' : σc s < m0.nc) :
+    FeatModel.GT.get (transposeDense m0.nf m0.nc pdP) (σc s) (σf r)
+      = FeatModel.GT.get (transposeDense m0.nf m0.nc pd0) s r :=
+  C18L.perm_invariance_rest m0 pc pf pfinv hc hf hok h0 hP hd0 hdP hr hs hr' hs'
+
+/-- **`T · P = 1` survives permutation**: for every pair of (independent) mesh permutations the truncation and
+prolongation assembled with the two lookups still satisfy `T' · P' = 1` whenever the unpermuted pair does -/
+theorem C18.perm_preserves_left_inverse (m0 : TwoLevel) (pc pf pfinv : List Nat) {σc σf : Nat → Nat}
+    (hc : Function.Injective σc) (hf : Function.Injective σf) (hok : C18L.PermOK m0 pc pf pfinv)
+    (hflt : ∀ k, k < m0.nf → σf k < m0.nf) (hclt : ∀ s, s < m0.nc → σc s < m0.nc)
+    {locs0 locsP : List (List Nat × List Nat × Mat)} {pd0 pdP : Mat}
+    {tl0 tlP : List (List Nat × List (List Nat × Mat))} {td0 tdP : Mat}
+    (h0 : localProls m0.toDump = .ok locs0)
+    (hP : localProls (C18L.permutedPair m0 pc pf pfinv σc σf).toDump = .ok locsP)
+    (hd0 : prolDirect m0.toDump locs0 = some pd0)
+    (hdP : prolDirect (C18L.permutedPair m0 pc pf pfinv σc σf).toDump locsP = some pdP)
+    (ht0 : localTruncs m0.toDump = .ok tl0)
+    (htP : localTruncs (C18L.permutedPair m0 pc pf pfinv σc σf).toDump = .ok tlP)
+    (htd0 : scaleRows m0.nf (truncRaw m0.toDump tl0) (truncWeights m0.toDump tl0) = some td0)
+    (htdP : scaleRows m0.nf (truncRaw (C18L.permutedPair m0 pc pf pfinv σc σf).toDump tlP)
+      (truncWeights (C18L.permutedPair m0 pc pf pfinv σc σf).toDump tlP) = some tdP)
+    (hid : ∀ r s, r < m0.nc → s < m0.nc →
+      sumTo m0.nf (fun k => FeatModel.GT.get td0 r k * FeatModel.GT.get pd0 k s) = if r = s then 1 else 0) :
+    ∀ r s, r < m0.nc → s < m0.nc →
+      sumTo m0.nf (fun k => FeatModel.GT.get tdP (σc r) k * FeatModel.GT.get pdP k (σc s)) = if r = s then 1 else 0 :=
+  C18L.perm_TP_identity m0 pc pf pfinv hc hf hok hflt hclt h0 hP hd0 hdP ht0 htP htd0 htdP hid
 
 /-- the permutation hypotheses are satisfiable by a genuinely permuted pair (2 coarse cells, 2 children each, both
 meshes permuted) … -/
